@@ -18,7 +18,7 @@
 //   GA     : age:X n int* sig:H          DE : age:X n X* sig:H
 //   TEAM   : n MEP* sig:H
 //   POPx   : n (allowed:X n IND*)*
-//   SUMx   : known:0|1 [IND F acc:X] elapsed:int mutations:X crossovers:X gen:X last_imp:X
+//   SUMx   : best.solution:IND best.score.fitness:F accuracy:X elapsed:int mutations:X crossovers:X gen:X last_imp:X
 //   DIST   : count:X mean:X min:X max:X m2:X n (key:X val:X)*
 //   MAT    : cols:X n int*
 #include <chrono>
@@ -213,16 +213,10 @@ template<class T> void dump(std::ostream &o, const population<T> &p)
 }
 template<class T> void dump(std::ostream &o, const summary<T> &s)
 {
-  if (s.best.solution.empty())
-    o << '0';
-  else
-  {
-    o << "1 ";
-    dump(o, s.best.solution);
-    o << ' ';
-    dump(o, s.best.score.fitness);
-    o << ' ' << hex64(bits_of(s.best.score.accuracy));
-  }
+  dump(o, s.best.solution);
+  o << ' ';
+  dump(o, s.best.score.fitness);
+  o << ' ' << hex64(bits_of(s.best.score.accuracy));
   o << ' ' << s.elapsed.count() << ' ' << hex64(s.mutations) << ' ' << hex64(s.crossovers)
     << ' ' << hex64(s.gen) << ' ' << hex64(s.last_imp);
 }
